@@ -41,29 +41,45 @@ func (m *wireMon) checkTimersStep(side int) {
 	c := &sm.c19
 	if c.have && (srtt != c.srtt || rttvar != c.rttvar) {
 		m.count("c19.srtt-updates")
-		if sm.stepAckPkts == 1 && len(sm.stepRTTCands) >= 0 && !sm.stepHB {
-			ok := false
-			for _, r := range sm.stepRTTCands {
-				var es, ev float64
-				if c.srtt == 0 {
-					es, ev = r, r/2
-				} else {
-					ev = 0.75*c.rttvar + 0.25*math.Abs(c.srtt-r)
-					es = 0.875*c.srtt + 0.125*r
-				}
-				if math.Abs(es-srtt) < 1e-6 && math.Abs(ev-rttvar) < 1e-6 {
-					ok = true
-				}
+		// the update must be the RFC 6298 step for the round trip of one chunk that was on the wire exactly
+		// once and was newly acknowledged by one of the recently delivered SACKs (each sample justifies one update)
+		const window = 24
+		keep := sm.rttCands[:0]
+		for _, rc := range sm.rttCands {
+			if rc.pkt > sm.ackPktSeq-window {
+				keep = append(keep, rc)
 			}
-			m.count("c19.srtt-updates-checked")
-			if !ok {
-				if len(sm.stepRTTCands) == 0 {
-					w.violate("C19", "karn-violated", "%s: SRTT changed from %.3f to %.3f ms in a step whose acknowledgement newly acknowledged only retransmitted chunks (or none)", ep.name, c.srtt, srtt)
-				} else {
-					w.violate("C19", "rtt-update-wrong", "%s: SRTT/RTTVAR went %.4f/%.4f -> %.4f/%.4f ms; the round-trip samples of the chunks acknowledged in this step that were sent exactly once are %v ms, none gives that RFC 6298 update", ep.name, c.srtt, c.rttvar, srtt, rttvar, sm.stepRTTCands)
-				}
-				return
+		}
+		sm.rttCands = keep
+		hbRecent := sm.hbAckSeen && sm.hbAckSeq > sm.ackPktSeq-window
+		found := -1
+		for i, rc := range sm.rttCands {
+			var es, ev float64
+			if c.srtt == 0 {
+				es, ev = rc.sample, rc.sample/2
+			} else {
+				ev = 0.75*c.rttvar + 0.25*math.Abs(c.srtt-rc.sample)
+				es = 0.875*c.srtt + 0.125*rc.sample
 			}
+			if math.Abs(es-srtt) < 1e-6 && math.Abs(ev-rttvar) < 1e-6 {
+				found = i
+				break
+			}
+		}
+		m.count("c19.srtt-updates-checked")
+		if found >= 0 {
+			sm.rttCands = append(sm.rttCands[:found:found], sm.rttCands[found+1:]...)
+		} else if !hbRecent {
+			var samples []float64
+			for _, rc := range sm.rttCands {
+				samples = append(samples, rc.sample)
+			}
+			if len(samples) == 0 {
+				w.violate("C19", "karn-violated", "%s: SRTT changed from %.3f to %.3f ms although the recently delivered acknowledgements newly acknowledged only retransmitted chunks (or none)", ep.name, c.srtt, srtt)
+			} else {
+				w.violate("C19", "rtt-update-wrong", "%s: SRTT/RTTVAR went %.4f/%.4f -> %.4f/%.4f ms; the round-trip samples of the chunks newly acknowledged by the recently delivered SACKs that were sent exactly once are %v ms, none gives that RFC 6298 update", ep.name, c.srtt, c.rttvar, srtt, rttvar, samples)
+			}
+			return
 		}
 	}
 	c.srtt, c.rttvar, c.have = srtt, rttvar, true
@@ -285,6 +301,14 @@ func scenarioTimers(w *world) {
 		}
 	}
 	_ = timer
+	if n, _ := accInflight(ep.assoc); n == 0 {
+		// DATA was emitted at the very beginning of the outage but a SACK that arrived just before the
+		// partition already covers it: nothing is outstanding, T3 has nothing to do
+		if sawData {
+			w.probe("outage-data-already-acknowledged")
+		}
+		sawData = false
+	}
 	checked := false
 	if sawData {
 		backoffCheck(w, "cb:"+ep.name+".rtx3", from, rmax, minExp)
